@@ -116,9 +116,32 @@ func famVerify(g *Gen, tier string, shard, nshards int) {
 	}
 	for st := 0; st < nStates; st++ {
 		s := newSim(g, pickRows(g))
-		s.applyBlock(nil, 1+g.Intn(maxLeaves))
-		for b := 0; b < g.Intn(4); b++ {
-			s.applyBlock(s.pickDeletions(1+g.Intn(7)), g.Intn(5))
+		// one state in five is a forest of many trees (9 or more roots, rows >= 9); the honest
+		// proofs that are mutated there are half of the time proofs of leaves at the right edge
+		// (the small trees with the high tree indexes).  A few of them have 12..16 roots.
+		manyTrees := st%5 == 4
+		if manyTrees {
+			k := shard*nStates/5 + st/5
+			n := manyTreeCount(k)
+			if k%4 == 1 {
+				n = hugeTreeCount(k / 4)
+			}
+			if k%8 == 7 {
+				n = giantTreeCount(k / 8)
+			}
+			s.growTo(n)
+			for b := 0; b < 1+g.Intn(3); b++ {
+				style := manyTreeStyle(g)
+				if b == 0 && k%3 == 0 {
+					style = 2 // a leaf that has climbed many rows is among the targets below
+				}
+				s.applyBlock(manyTreeDeletions(g, s.alive, style), manyTreeAdds(g))
+			}
+		} else {
+			s.applyBlock(nil, 1+g.Intn(maxLeaves))
+			for b := 0; b < g.Intn(4); b++ {
+				s.applyBlock(s.pickDeletions(1+g.Intn(7)), g.Intn(5))
+			}
 		}
 		s.obsRoots()
 		live := s.liveHashes()
@@ -133,10 +156,28 @@ func famVerify(g *Gen, tier string, shard, nshards int) {
 			var ts []uint64
 			var pr []u.Hash
 			if len(live) > 0 {
-				sz := 1 + g.Intn(min(len(live), 6))
-				p := g.Perm(len(live))[:sz]
-				for _, j := range p {
-					hs = append(hs, live[j])
+				from := live
+				if manyTrees && len(live) > 24 && g.Intn(2) == 0 {
+					from = live[len(live)-24:]
+				}
+				sz := 1 + g.Intn(min(len(from), 6))
+				if manyTrees && len(from) > 500 {
+					// (a permutation of a big forest per case is what costs here)
+					for len(hs) < sz {
+						h := from[g.Intn(len(from))]
+						dup := false
+						for _, x := range hs {
+							dup = dup || x == h
+						}
+						if !dup {
+							hs = append(hs, h)
+						}
+					}
+				} else {
+					p := g.Perm(len(from))[:sz]
+					for _, j := range p {
+						hs = append(hs, from[j])
+					}
 				}
 				proof, err := s.prover.Prove(copyHashes(hs))
 				if err != nil {
